@@ -13,6 +13,7 @@ import (
 	"reflect"
 	"sort"
 	"strconv"
+	"sync/atomic"
 	"time"
 
 	. "verif/harness/hlib"
@@ -167,16 +168,61 @@ func (a absPatch) event(k int) Event {
 	return Event{"ev": "Patch", "k": k, "updates": ups, "fixed": a.Fixed, "introduced": a.Introduced}
 }
 
-// watchdog runs f; reports hang=true only if two consecutive runs both exceed the limit.
-func watchdog(limit time.Duration, f func()) (hang bool, panicked string) {
-	for attempt := 0; attempt < 2; attempt++ {
+// parkClient is the resolve.Client handed to the code under test. When the watchdog gives up on a run it is
+// marked dead: every later call parks its goroutine forever, so a diverging loop in /repo stops burning a core.
+type parkClient struct {
+	resolve.Client
+	dead atomic.Bool
+}
+
+func (p *parkClient) park() {
+	if p.dead.Load() {
+		select {}
+	}
+}
+func (p *parkClient) Version(ctx context.Context, vk resolve.VersionKey) (resolve.Version, error) {
+	p.park()
+	return p.Client.Version(ctx, vk)
+}
+func (p *parkClient) Versions(ctx context.Context, pk resolve.PackageKey) ([]resolve.Version, error) {
+	p.park()
+	return p.Client.Versions(ctx, pk)
+}
+func (p *parkClient) Requirements(ctx context.Context, vk resolve.VersionKey) ([]resolve.RequirementVersion, error) {
+	p.park()
+	return p.Client.Requirements(ctx, vk)
+}
+func (p *parkClient) MatchingVersions(ctx context.Context, vk resolve.VersionKey) ([]resolve.Version, error) {
+	p.park()
+	return p.Client.MatchingVersions(ctx, vk)
+}
+
+var hangsSeen atomic.Int64
+
+// watchdog runs f (with a fresh parkable client); reports hang=true only if two consecutive runs both exceed
+// the limit. After 5 confirmed hangs in this process the remaining cases use a 5 s limit (still ~1000x the
+// median run time) so that a diverging tree does not stall the whole check.
+func watchdog(limit time.Duration, base resolve.Client, f func(cl resolve.Client)) (hang bool, panicked string) {
+	return watchdogN(limit, 2, base, f)
+}
+
+func watchdogN(limit time.Duration, tries int, base resolve.Client, f func(cl resolve.Client)) (hang bool, panicked string) {
+	if hangsSeen.Load() >= 5 && limit > 5*time.Second {
+		limit = 5 * time.Second
+	}
+	for attempt := 0; attempt < tries; attempt++ {
+		pc := &parkClient{Client: base}
 		done := make(chan string, 1)
-		go func() { done <- Safely(f) }()
+		go func() { done <- Safely(func() { f(pc) }) }()
 		select {
 		case p := <-done:
 			return false, p
 		case <-time.After(limit):
+			pc.dead.Store(true)
 		}
+	}
+	if tries > 1 {
+		hangsSeen.Add(1)
 	}
 	return true, ""
 }
@@ -292,7 +338,7 @@ func runCase(e *Env, idx int, c *Case, limit time.Duration) (*Out, error) {
 			}
 			toKind, toAt := reqShape(u.To)
 			emit(Event{"ev": "Base", "k": k, "name": u.Name, "base": verTuple(baseS), "after": verTuple(afterS), "src": baseSrc,
-				"toKind": toKind, "toAt": toAt})
+				"toKind": toKind, "toAt": toAt, "hard": s.hardInvolved(u)})
 			data := map[string]any{"patch": a, "update": u, "base": baseS, "after": afterS, "level": lvl, "applied": applied}
 			if lvl == "none" {
 				fail("C11", "none-touched", fmt.Sprintf("package %s is configured as not upgradable but the patch rewrites its requirement %q -> %q", u.Name, u.From, u.To), data)
@@ -320,7 +366,7 @@ func runCase(e *Env, idx int, c *Case, limit time.Duration) (*Out, error) {
 		}
 		var res result.Result
 		var rerr error
-		hang, pan := watchdog(limit, func() {
+		hang, pan := watchdog(limit, cl, func(cl resolve.Client) {
 			res, rerr = guidedremediation.Update(options.UpdateOptions{Manifest: work, ResolveClient: cl,
 				UpgradeConfig: upgradeConfig(s.Opts.Levels), IgnoreDev: s.Opts.IgnoreDev})
 		})
@@ -367,7 +413,7 @@ func runCase(e *Env, idx int, c *Case, limit time.Duration) (*Out, error) {
 		// the manifest does not resolve: nothing to remediate; FixVulns must fail too (and terminate)
 		work, _ := copyFile(orig, filepath.Join(dir, "work"))
 		var rerr error
-		hang, pan := watchdog(limit, func() {
+		hang, pan := watchdog(limit, cl, func(cl resolve.Client) {
 			_, rerr = guidedremediation.FixVulns(options.FixVulnsOptions{Manifest: work, Strategy: strat, MatcherClient: vm,
 				ResolveClient: cl, MaxUpgrades: s.Opts.MaxUpgrades, NoIntroduce: s.Opts.NoIntroduce, RemediationOptions: s.remOpts(false)})
 		})
@@ -384,7 +430,28 @@ func runCase(e *Env, idx int, c *Case, limit time.Duration) (*Out, error) {
 	}
 	emit(Event{"ev": "Resolved", "run": 1, "graph": graphPairs(an1.Graph)})
 
-	proposedR, perr := verifhooks.RemComputePatches(ctx, strat, orig, cl, vm, s.remOpts(false))
+	var proposedR []result.Patch
+	var perr error
+	if hang, pan := watchdogN(limit, 1, cl, func(cl resolve.Client) {
+		proposedR, perr = verifhooks.RemComputePatches(ctx, strat, orig, cl, vm, s.remOpts(false))
+	}); hang || pan != "" {
+		// the strategy diverges or crashes while computing patches: confirm it on the real entry point
+		work, _ := copyFile(orig, filepath.Join(dir, "work"))
+		hang2, pan2 := watchdog(limit, cl, func(cl resolve.Client) {
+			_, _ = guidedremediation.FixVulns(options.FixVulnsOptions{Manifest: work, Strategy: strat, MatcherClient: vm,
+				ResolveClient: cl, MaxUpgrades: s.Opts.MaxUpgrades, NoIntroduce: s.Opts.NoIntroduce, RemediationOptions: s.remOpts(false)})
+		})
+		switch {
+		case hang2:
+			fail("C11", "hang", "FixVulns did not terminate within the watchdog limit (twice)", nil)
+		case pan2 != "":
+			fail("C11", "panic", "FixVulns panicked: "+pan2, nil)
+		default:
+			out.Harness = "ComputePatches hook hung/panicked but FixVulns returned: " + pan
+		}
+		out.Stats.Err = "hang-or-panic"
+		return finish()
+	}
 	if perr != nil {
 		out.Stats.Err = perr.Error()
 		emit(Event{"ev": "Error", "msg": perr.Error()})
@@ -401,7 +468,7 @@ func runCase(e *Env, idx int, c *Case, limit time.Duration) (*Out, error) {
 	}
 	var res result.Result
 	var rerr error
-	hang, pan := watchdog(limit, func() {
+	hang, pan := watchdog(limit, cl, func(cl resolve.Client) {
 		res, rerr = guidedremediation.FixVulns(options.FixVulnsOptions{Manifest: work, Strategy: strat, MatcherClient: vm,
 			ResolveClient: cl, MaxUpgrades: s.Opts.MaxUpgrades, NoIntroduce: s.Opts.NoIntroduce, RemediationOptions: s.remOpts(false)})
 	})
@@ -480,7 +547,7 @@ func runCase(e *Env, idx int, c *Case, limit time.Duration) (*Out, error) {
 	}
 	var res2 result.Result
 	var rerr2 error
-	hang, pan = watchdog(limit, func() {
+	hang, pan = watchdog(limit, cl, func(cl resolve.Client) {
 		res2, rerr2 = guidedremediation.FixVulns(options.FixVulnsOptions{Manifest: second, Strategy: strat, MatcherClient: vm,
 			ResolveClient: cl, MaxUpgrades: 1, RemediationOptions: s.remOpts(true)})
 	})
